@@ -1,6 +1,9 @@
 package schema
 
-import "regexp"
+import (
+	"fmt"
+	"regexp"
+)
 
 var unitsProperty = NewPropertySchema(
 	NewRefSchema("Units", nil),
@@ -1318,7 +1321,31 @@ func UnserializeScope(data any) (*ScopeSchema, error) {
 	if err != nil {
 		return nil, err
 	}
-	return s.(*ScopeSchema), nil
+	result := s.(*ScopeSchema)
+	// The description comes from outside: a missing root object, a dangling reference or a one-of that
+	// contradicts its inlining flag must be reported as an error, not as a panic on first use.
+	if err := recoverAsError(func() {
+		result.RootObject()
+		result.ApplySelf()
+	}); err != nil {
+		return nil, err
+	}
+	return result, nil
+}
+
+// recoverAsError runs f and converts a panic raised by an inconsistent schema definition into an error.
+func recoverAsError(f func()) (err error) {
+	defer func() {
+		if r := recover(); r != nil {
+			if e, ok := r.(error); ok {
+				err = BadArgumentError{Message: "invalid schema definition", Cause: e}
+			} else {
+				err = BadArgumentError{Message: fmt.Sprintf("invalid schema definition: %v", r)}
+			}
+		}
+	}()
+	f()
+	return nil
 }
 
 // UnserializeSchema unserializes an entire schema definition from raw data.
@@ -1328,6 +1355,22 @@ func UnserializeSchema(data any) (*SchemaSchema, error) {
 		return nil, err
 	}
 	result := s.(*SchemaSchema)
-	result.applyNamespace()
+	if err := recoverAsError(func() {
+		result.applyNamespace()
+		for _, step := range result.StepsValue {
+			step.InputValue.RootObject()
+			for _, output := range step.OutputsValue {
+				output.Schema().RootObject()
+			}
+			for _, signal := range step.SignalHandlersValue {
+				signal.DataSchemaValue.RootObject()
+			}
+			for _, signal := range step.SignalEmittersValue {
+				signal.DataSchemaValue.RootObject()
+			}
+		}
+	}); err != nil {
+		return nil, err
+	}
 	return result, nil
 }
